@@ -95,6 +95,8 @@ def items(tier: str, seed: int):
             out.append({"kind": "size", "lang": lang, "levels": [n], "widths": []})
         for w in widths:
             out.append({"kind": "size", "lang": lang, "levels": [], "widths": [w]})
+    for lang in ("py", "ts", "rs"):
+        out.append({"kind": "size", "lang": lang, "levels": [], "widths": [], "literals": True})
     out.append({"kind": "unknown"})
     return out
 
@@ -225,6 +227,19 @@ def run_item(item) -> Acc:
                 gens.append((f"deep-if-{n}", "fn f(a: bool) {\n" + "if a {\n" * n + "work();\n" + "}\n" * n + "}\n"))
                 gens.append((f"deep-parens-{n}", "fn f() -> i32 { " + "(" * n + "1" + ")" * n + " }\n"))
                 gens.append((f"deep-closure-{n}", "fn f() { let g = " + "|| " * n + "1; }\n"))
+        if item.get("literals"):
+            big_hex, big_dec = "0x" + "f" * 5000, "9" * 5000
+            if lang == "py":
+                gens.append(("huge-int-hex-5000", f"LIMIT = 10\n\n\ndef f():\n    return {big_hex}\n"))
+                gens.append(("huge-int-dec-5000", f"def f():\n    return {big_dec}\n"))
+                gens.append(("lone-surrogate-escape-1", 'def f(mode):\n    if mode == "\\udc80" or mode == "plain":\n        return 1\n    return pick("\\udc80")\n'))
+            elif lang == "ts":
+                gens.append(("huge-int-hex-5000", f"export function f() {{\n  return {big_hex};\n}}\n"))
+                gens.append(("huge-int-dec-5000", f"export function f() {{\n  return {big_dec};\n}}\n"))
+                gens.append(("lone-surrogate-escape-1", 'export function f(mode: string) {\n  if (mode === "\\udc80" || mode === "plain") {\n    return 1;\n  }\n  return pick("\\udc80");\n}\n'))
+            else:
+                gens.append(("huge-int-hex-5000", f"fn f() -> u128 {{\n    {big_hex}\n}}\n"))
+                gens.append(("huge-int-dec-5000", f"fn f() -> u128 {{\n    {big_dec}\n}}\n"))
         for w in item["widths"]:
             if lang == "py":
                 gens.append((f"long-line-{w}", "x = '" + "a" * w + "'\n"))
@@ -280,6 +295,9 @@ def run_item(item) -> Acc:
 
 def replay_case(case) -> list[dict]:
     acc = Acc()
+    if case.get("kind") == "size" and ("huge-int" in case["generator"] or "lone-surrogate" in case["generator"]):
+        a = run_item({"kind": "size", "lang": case["lang"], "levels": [], "widths": [], "literals": True})
+        return [f for f in a.failures if f["case"].get("generator") == case["generator"] and f["case"].get("cmd") == case["cmd"]]
     if case.get("kind") == "size":
         a = run_item({"kind": "size", "lang": case["lang"], "levels": [int(case["generator"].rsplit("-", 1)[1])] if "deep" in case["generator"] or "long-chain" in case["generator"] else [], "widths": [int(case["generator"].rsplit("-", 1)[1]) * (10 if "terms" in case["generator"] else (100 if "functions" in case["generator"] else 1))] if "deep" not in case["generator"] and "long-chain" not in case["generator"] else []})
         return [f for f in a.failures if f["case"].get("generator") == case["generator"] and f["case"].get("cmd") == case["cmd"]]
